@@ -11,7 +11,7 @@ RULE = ("(a) CellWrapper.fit alone, bounded-exhaustive: 1-3 columns x one row of
         "per-column alignments, terminal widths 20..200, indentation 0..8, ANSI and plain output - tag-free cells are compared with "
         "the model byte for byte, cells with style tags go through the oracle only; non-trivial = a table in which at least one "
         "cell was wrapped; distinct by (cells, style, width, indentation)")
-THEOREMS = []
+THEOREMS = ["fit_total_and_bounded", "render_total", "table_rect", "table_keeps_text", "short_split_leaves_room"]
 TRUSTED = ["the share int(round(length / actual * available)) is computed in floating point by the code; the model takes the rounding "
            "function as a parameter (theorems hold for every function) and ocaml/driver.ml instantiates it with the same IEEE-double "
            "division, multiplication and round-half-even",
@@ -208,7 +208,7 @@ def canon_impl(c, o):
     wr, page = o[0], o[1]
     if page[0] != 0:
         return page
-    return [0, wr + [page[1]]]
+    return [0, wr + [page[1], 1]]      # 1: the model found the style well-formed (wf_styleb, hypothesis of table_rect)
 
 
 def geometry(c):
